@@ -288,7 +288,7 @@ class BehavioralRTLIRToVVisitorL1( bir.BehavioralRTLIRNodeVisitor ):
   def visit_Number( s, node ):
     """Return a number in string."""
     nbits = node.Type.get_dtype().get_length()
-    return f"{nbits}'d{node.value}"
+    return f"{nbits}'d{int(node.value)}"
 
   #-----------------------------------------------------------------------
   # visit_Concat
